@@ -211,10 +211,14 @@ theorem pinyin_fits : maxPinyinLen < capOf "bopomofo_buf" := by decide
 
 /-! ## 3. Inventory of the unsafe surface (a new exported function / unsafe block / iterator site breaks these) -/
 
+/- reviewed at the integration of C01's F06 fix (`fix: chewing_userphrase_get truncates …`): the two in-line
+   `slice::from_raw_parts_mut(buf, size)` + unchecked copies of `chewing_userphrase_get` became two calls of the new
+   helper `copy_cstr_to_caller(buf, cap, src)`, which writes `min(src.len(), cap-1) + 1 ≤ cap` bytes and nothing for
+   `cap = 0` (one `unsafe` block more, one helper more; exported functions unchanged). -/
 set_option maxRecDepth 10000 in
 theorem inventory :
-    exportedFns.length = 126 ∧ unsafeBlocksTotal = 64 ∧
-    helperUnsafeFns = ["slice_from_ptr_with_nul", "str_from_ptr_with_nul"] ∧
+    exportedFns.length = 126 ∧ unsafeBlocksTotal = 65 ∧
+    helperUnsafeFns = ["slice_from_ptr_with_nul", "copy_cstr_to_caller", "str_from_ptr_with_nul"] ∧
     ownedKinds = ["CString", "CUShortSlice"] ∧
     iterFields = ["kbcompat_iter", "cand_iter", "interval_iter", "userphrase_iter"] := by decide
 
